@@ -34,6 +34,7 @@ func validateTheory(e *Engine, dirs []string) int {
 			example[fact] = fset.Position(pos).String()
 		}
 	}
+	typedOnly := false
 	checkNode := func(n ast.Node) {
 		nnodes++
 		v := reflect.ValueOf(n)
@@ -75,9 +76,26 @@ func validateTheory(e *Engine, dirs []string) int {
 			}
 		}
 		switch x := n.(type) {
+		case *ast.Ident:
+			if strings.Contains(x.Name, ".") && x.Name != "." {
+				report("Ident.Name contains no dot", n.Pos())
+			}
 		case *ast.CallExpr:
 			if x.Ellipsis != token.NoPos && len(x.Args) == 0 {
 				report("CallExpr.Ellipsis implies an argument", n.Pos())
+			}
+		case *ast.DeclStmt:
+			if _, ok := x.Decl.(*ast.GenDecl); !ok {
+				report("DeclStmt.Decl is a GenDecl", n.Pos())
+			}
+		case *ast.Comment:
+			if !(strings.HasPrefix(x.Text, "//") || (strings.HasPrefix(x.Text, "/*") && len(x.Text) >= 4)) {
+				report("Comment.Text includes its marker", n.Pos())
+			}
+		case *ast.FuncDecl:
+			if typedOnly && x.Recv != nil && len(x.Recv.List) != 1 {
+				// guaranteed by the type checker, not by the parser: evaluated on type-checked packages only
+				report("a method has exactly one receiver field", n.Pos())
 			}
 		case *ast.SwitchStmt:
 			for _, s := range x.Body.List {
@@ -86,6 +104,15 @@ func validateTheory(e *Engine, dirs []string) int {
 				}
 			}
 		case *ast.TypeSwitchStmt:
+			switch a := x.Assign.(type) {
+			case *ast.AssignStmt:
+			case *ast.ExprStmt:
+				if _, ok := a.X.(*ast.TypeAssertExpr); !ok {
+					report("TypeSwitchStmt.Assign expression is a type assertion", n.Pos())
+				}
+			default:
+				report("TypeSwitchStmt.Assign is an assignment or an expression statement", n.Pos())
+			}
 			for _, s := range x.Body.List {
 				if _, ok := s.(*ast.CaseClause); !ok {
 					report("TypeSwitchStmt.Body holds case clauses", n.Pos())
@@ -121,6 +148,21 @@ func validateTheory(e *Engine, dirs []string) int {
 	// typed facts on the loaded packages of the repository
 	ncalls := 0
 	if e != nil {
+		typedOnly = true
+		for _, p := range e.pkgs {
+			if p.TypesInfo == nil || len(p.Errors) > 0 {
+				continue
+			}
+			for _, f := range p.Syntax {
+				ast.Inspect(f, func(n ast.Node) bool {
+					if n != nil {
+						checkNode(n)
+					}
+					return true
+				})
+			}
+		}
+		typedOnly = false
 		arity := map[string][2]int{"append": {1, 1 << 30}, "new": {1, 1}, "len": {1, 1}, "cap": {1, 1}, "copy": {2, 2}}
 		for _, p := range e.pkgs {
 			if p.TypesInfo == nil {
